@@ -70,6 +70,17 @@ func VerifyFunc(p *Program, fc *FuncContract, prop string) (u *Unit) {
 			o.Output = "the body (or a callee) may write through the receiver or a pointer/map parameter"
 		}
 	}
+	for _, f := range fc.NoRead {
+		o := w.Oblige(x.oblName("frame:noread", f), "frame", True, True)
+		o.Preset = true
+		o.Solver = "frame-analysis"
+		if p.ReadsField(fi, f, map[*FuncInfo]bool{}) {
+			o.Result = "sat"
+			o.Output = "the function (or a callee on the same receiver) reads field " + f
+		} else {
+			o.Result = "unsat"
+		}
+	}
 	// loops named in the contract must exist
 	for ord := range fc.Loops {
 		if ord >= len(cx.loopOrd) {
